@@ -5,6 +5,7 @@ import (
 	"encoding/hex"
 	"fmt"
 	"strconv"
+	"strings"
 
 	"github.com/kstenerud/go-concise-encoding/ce"
 	"github.com/kstenerud/go-concise-encoding/configuration"
@@ -80,8 +81,15 @@ func c27Specific(format string, entry string, doc []byte) string {
 	})
 }
 
+// one universal decoder instance is reused for every document of a run, so that
+// state kept between calls (e.g. a cached format choice) is exercised too
+var c27SharedDecoder ce.Decoder
+
 func c27Universal(entry string, doc []byte) string {
 	cfg := configuration.New()
+	if c27SharedDecoder == nil {
+		c27SharedDecoder = ce.NewCEDecoder(cfg)
+	}
 	return guard(func() string {
 		switch entry {
 		case "unmarshal-doc":
@@ -93,7 +101,7 @@ func c27Universal(entry string, doc []byte) string {
 		case "decode-doc", "decode-reader":
 			rec := &Recorder{}
 			rules := ce.NewRules(rec, cfg)
-			d := ce.NewCEDecoder(cfg)
+			d := c27SharedDecoder
 			var err error
 			if entry == "decode-doc" {
 				err = d.DecodeDocument(doc, rules)
@@ -145,18 +153,29 @@ func c27Key(entry string, doc []byte) string {
 }
 
 func versionAccepted(format string, v uint64) bool {
+	acc, _ := versionDecode(format, v)
+	return acc
+}
+
+// versionDecode decodes a minimal document announcing version v (formats: cte, CTE = upper-case header letter, cbe)
+// and returns whether it was accepted and the events delivered behind the validator.
+func versionDecode(format string, v uint64) (bool, string) {
 	cfg := configuration.New()
 	rec := &Recorder{}
 	rules := ce.NewRules(rec, cfg)
 	var err error
-	if format == "cte" {
-		err = ce.NewCTEDecoder(cfg).DecodeDocument([]byte("c"+strconv.FormatUint(v, 10)+" 1"), rules)
+	if format == "cte" || format == "CTE" {
+		letter := "c"
+		if format == "CTE" {
+			letter = "C"
+		}
+		err = ce.NewCTEDecoder(cfg).DecodeDocument([]byte(letter+strconv.FormatUint(v, 10)+" 1"), rules)
 	} else {
 		doc := append([]byte{0x81}, uleb(v)...)
 		doc = append(doc, 1)
 		err = ce.NewCBEDecoder(cfg).DecodeDocument(doc, rules)
 	}
-	return err == nil
+	return err == nil, evsString(rec.Evs)
 }
 
 func runC27(c *Ctx) {
@@ -179,12 +198,19 @@ func runC27(c *Ctx) {
 	for i := 0; i < c.Pick(20, 200); i++ {
 		vs = append(vs, c.Rng.Uint64()>>uint(c.Rng.Intn(64)))
 	}
-	for _, f := range []string{"cte", "cbe"} {
+	for _, f := range []string{"cte", "CTE", "cbe"} {
+		_, ev0 := versionDecode(f, 0)
 		for _, v := range vs {
-			acc := versionAccepted(f, v)
+			acc, evs := versionDecode(f, v)
+			if acc && evs != ev0 {
+				// "accept 0 and 1 alike": an accepted version must be indistinguishable downstream from version 0
+				c.Fail(Replay{Kind: "version-alike", Key: fmt.Sprintf("C27/version-alike/%s/v=%d", f, v),
+					Input:  map[string]string{"format": f, "version": strconv.FormatUint(v, 10)},
+					Expect: ev0, Got: evs})
+			}
 			c.Count(fmt.Sprintf("ver/%s/%d", f, v), v <= 2)
 			c.Dist(fmt.Sprintf("version/%s/accepted=%v", f, acc))
-			cf.Add(cApp("VersionCase", fmtCtor(f), cN(v), cBool(acc)), fmt.Sprintf("version %s %d accepted=%v", f, v, acc))
+			cf.Add(cApp("VersionCase", fmtCtor(strings.ToLower(f)), cN(v), cBool(acc)), fmt.Sprintf("version %s %d accepted=%v", f, v, acc))
 			want := v == 0 || v == 1
 			if acc != want {
 				c.Fail(Replay{Kind: "version", Key: fmt.Sprintf("C27/version/%s/v=%d", f, v),
@@ -262,6 +288,11 @@ func replayC27(r *Replay) (bool, string) {
 		}
 		ok, expect, got := c27Oracle(r.Input["entry"], doc)
 		return ok, fmt.Sprintf("universal=%q specific(%s)=%q", got, detectSpec(doc[0]), expect)
+	case "version-alike":
+		v, _ := strconv.ParseUint(r.Input["version"], 10, 64)
+		_, ev0 := versionDecode(r.Input["format"], 0)
+		acc, evs := versionDecode(r.Input["format"], v)
+		return !acc || evs == ev0, fmt.Sprintf("version %d events %q, version 0 events %q", v, evs, ev0)
 	case "version":
 		v, _ := strconv.ParseUint(r.Input["version"], 10, 64)
 		acc := versionAccepted(r.Input["format"], v)
